@@ -446,6 +446,13 @@ func (c *Chain) didUpdateMsg(e *Event) sdk.Msg {
 	for _, a := range e.Tx {
 		remove = append(remove, "did:key:acc-"+a+"-"+e.Did)
 	}
+	// e.Ro: further account dids to remove, given by their symbolic name "ad_<acc>_<did>" (possibly another did's)
+	for _, ad := range e.Ro {
+		parts := strings.Split(strings.TrimPrefix(ad, "ad_"), "_")
+		if len(parts) == 2 {
+			remove = append(remove, "did:key:acc-"+parts[0]+"-"+parts[1])
+		}
+	}
 	var upd []*didtypes.AccountAuth
 	for _, a := range e.Datas {
 		upd = append(upd, &didtypes.AccountAuth{AccountDid: "did:key:acc-" + a + "-" + e.Did, AccountEncryptedSeed: "seed2", SidEncryptedAccount: "enc2"})
